@@ -1014,7 +1014,10 @@ func (e *AnimEncoder) increasePreviousDuration(durMS int) error {
 	e.prevMuxIndex = e.muxer.NumFrames() - 1
 	e.frameCount++
 	e.countSinceKeyframe++
-	// prevCanvas and prevFrameRect remain unchanged since the canvas is identical.
+	// prevCanvas remains unchanged since the canvas is identical. The previous
+	// frame in the muxer is now the 1x1 filler, so that is the rectangle a
+	// retroactive dispose-to-background of prevMuxIndex would clear.
+	e.prevFrameRect = image.Rect(0, 0, 1, 1)
 	return nil
 }
 
